@@ -360,7 +360,26 @@ pub fn gen_formula_text(t: &mut Tape, max_free: usize) -> Option<(String, Vec<St
         .map(|s| s.to_string())
         .collect();
     cfg.max_list = 3;
-    let ast = gen::formula(t, &cfg);
+    if t.chance(140) {
+        cfg.allow_fix = false;
+    }
+    if t.chance(100) {
+        cfg.allow_quant = false;
+    }
+    let mut ast = gen::formula(t, &cfg);
+    // by construction most cases have >= 2 free variables and a contingent function:
+    // (f xor x) op y with two free names (which may also occur bound inside f)
+    if t.chance(200) && cfg.names.len() >= 2 {
+        use crate::rast::{BinOp, RAst};
+        let x = cfg.names[t.choose(cfg.names.len())].clone();
+        let mut y = cfg.names[t.choose(cfg.names.len())].clone();
+        if y == x {
+            y = cfg.names[(cfg.names.iter().position(|n| *n == x).unwrap() + 1) % cfg.names.len()].clone();
+        }
+        let inner = RAst::bin(BinOp::Xor, ast, RAst::Var(x));
+        let op = [BinOp::And, BinOp::Or, BinOp::Implies, BinOp::Nand][t.choose(4)];
+        ast = if t.flag() { RAst::bin(op, inner, RAst::Var(y)) } else { RAst::bin(op, RAst::Var(y), inner) };
+    }
     if ast.free_vars().len() > max_free {
         return None;
     }
@@ -486,7 +505,7 @@ pub fn run(ctx: &mut Ctx) -> Result<(), Violation> {
     }
     ctx.stage("hand-written", true, (st, None))?;
 
-    let cases = ctx.tier.pick(260, 12_000);
+    let cases = ctx.tier.pick(400, 12_000);
     let r = par_random(ctx, "random-formulas", cases, 300, |tape, st| {
         let mut t = Tape::new(tape);
         let (text, idents) = match gen_formula_text(&mut t, 5) {
